@@ -565,8 +565,9 @@ String Json::stripComments(const String& data)
               src = end + 2;
               goto checkStr;
             }
-            *(dest++) = *(end++);
-            src = end;
+            if (*end != '*') // keep the line break, drop a '*' that does not close the comment
+              *(dest++) = *end;
+            src = end + 1;
             continue;
           }
           else
